@@ -2,6 +2,7 @@ package sim
 
 import (
 	"bytes"
+	"crypto/sha256"
 	"encoding/hex"
 	"fmt"
 	"math/big"
@@ -20,6 +21,9 @@ import (
 
 // Tx is one transaction of a history.
 type Tx struct {
+	// Pre: transactions delivered in the same block before this one. They are built to fail (their last message
+	// is unauthorised), so they must change nothing; the main transaction is judged as if they had not been there.
+	Pre   [][]sdk.Msg
 	Msgs  []sdk.Msg
 	Fault map[int]chain.FaultKind // fallible dependency call index -> injected fault
 	Note  string
@@ -218,17 +222,51 @@ func (e *Engine) Exec(tx Tx) *Report {
 		e.C.Deps.Faults = nil
 	}
 	rc.LogCall("TX %s", trunc(describeTx(&tx), 3000))
-	res, err := e.C.DeliverBlock([][]byte{bz})
+	block := [][]byte{}
+	for _, pm := range tx.Pre {
+		pb, perr := e.C.BuildTx(pm...)
+		if perr == nil {
+			block = append(block, pb)
+		}
+	}
+	block = append(block, bz)
+	if len(block) > 1 && tx.Fault != nil {
+		h := sha256.Sum256(bz)
+		e.C.Deps.FaultTx = hex.EncodeToString(h[:])
+	}
+	res, err := e.C.DeliverBlock(block)
 	e.C.Deps.Faults = nil
 	if err != nil {
 		rc.Cov.Inconclusive("DeliverBlock: " + err.Error())
 		return rep
 	}
 	rc.LogCall("DONE")
-	rep.Res = res[0]
-	rep.OK = res[0].OK()
-	rep.Deps = append([]chain.DepCall(nil), e.C.Deps.Log...)
-	rep.Ops = append([]chain.StoreOp(nil), e.C.Store.Ops...)
+	main := len(res) - 1
+	mainKey := hex.EncodeToString(res[main].TxHash[:])
+	for i := 0; i < main; i++ {
+		rc.Cov.Assert("same-block.preceding-tx-failed")
+		rc.Cov.Cell("env_actions", "same-block-rolled-back-tx")
+		if res[i].OK() {
+			rc.Cov.Inconclusive("a transaction built to fail succeeded (harness): " + trunc(describeMsg(tx.Pre[i][0]), 200))
+		}
+		for _, ev := range res[i].Events {
+			if strings.HasPrefix(ev.Type, "circle.cctp.") {
+				e.viol([]string{"C14", "C15"}, "failed-implies-no-events", "failed-tx-emitted:"+ev.Type, "failed transaction emitted "+ev.Type, e.caseOf(&tx, ""))
+			}
+		}
+	}
+	rep.Res = res[main]
+	rep.OK = res[main].OK()
+	for _, d := range e.C.Deps.Log {
+		if d.Tx == mainKey || main == 0 {
+			rep.Deps = append(rep.Deps, d)
+		}
+	}
+	for _, op := range e.C.Store.Ops {
+		if op.Tx == mainKey || main == 0 {
+			rep.Ops = append(rep.Ops, op)
+		}
+	}
 	e.C.Store.Reset()
 	e.C.Store.Phase = "query"
 	post := e.C.DumpAll()
@@ -959,8 +997,12 @@ func (e *Engine) checkLedger(tx *Tx, rep *Report, pre map[string]*big.Int, extra
 		}
 	}
 	rc.Cov.Assert("C05.module-account-empty")
-	if post[moduleBech()].Sign() != 0 {
-		e.viol([]string{"C05"}, "ledger-delta", "module-balance-nonzero", "module account holds "+post[moduleBech()].String()+" after a transaction", e.caseOf(tx, ""))
+	base := e.Cfg.Funded[moduleBech()] // stray funds the chain started with (normally none)
+	if base == nil {
+		base = new(big.Int)
+	}
+	if post[moduleBech()].Cmp(base) != 0 {
+		e.viol([]string{"C05"}, "ledger-delta", "module-balance-nonzero", fmt.Sprintf("module account holds %s after a transaction (it held %s before the history began)", post[moduleBech()], base), e.caseOf(tx, ""))
 	}
 }
 
